@@ -541,7 +541,10 @@ func (v *VResult) validateInvoke(c *Case, tr *Trace, rt *RT, i int, op Op, out O
 				v.add(CMissedCycleInvoke, i, "resolution re-enters a constructor under construction and the process died (stack overflow) instead of returning a cycle error")
 			}
 		case out.Class == ClCycle:
-		case hole && out.Class == ClDig:
+		case hole:
+			// a missing dependency in the closure may be met before the
+			// cycle (and, below an optional edge, be forgiven): no claim
+			v.Labels["invoke-cycle-with-hole"] = true
 		default:
 			v.add(CMissedCycleInvoke, i, "resolution traverses a constructor cycle but Invoke returned class %s (%v), want an error for which IsCycleDetected is true", out.Class, out.Err)
 		}
